@@ -54,6 +54,8 @@ func (t *decTr) expr(e ast.Expr) string {
 			return "(DAnd " + t.expr(x.X) + " " + t.expr(x.Y) + ")"
 		case token.LOR:
 			return "(DOr " + t.expr(x.X) + " " + t.expr(x.Y) + ")"
+		case token.GTR, token.LSS, token.GEQ, token.LEQ:
+			return "(DAtom " + q(t.render(e)) + ")"
 		}
 	}
 	return "(DUnknown " + q(t.render(e)) + ")"
@@ -123,12 +125,20 @@ func (t *decTr) stmt(s ast.Stmt) string {
 			}
 			return "DSwitch " + q(t.render(x.Tag)) + " [" + strings.Join(cases, "; ") + "]"
 		}
+	case *ast.ExprStmt:
+		if c, ok := x.X.(*ast.CallExpr); ok {
+			f := t.render(c.Fun)
+			if strings.HasPrefix(f, "a.l.") || strings.HasPrefix(f, "c.l.") || strings.HasPrefix(f, "d.Logger.") || f == "verifYield" {
+				return "" // logging / yield hooks: no effect on the decision
+			}
+			return "DCall " + q(t.render(c))
+		}
 	case *ast.ReturnStmt:
 		if len(x.Results) == 1 {
 			if id, ok := x.Results[0].(*ast.Ident); ok && id.Name == "nil" {
 				return "DReturn " + q("nil")
 			}
-			if _, ok := x.Results[0].(*ast.CallExpr); ok {
+			if c, ok := x.Results[0].(*ast.CallExpr); ok && t.render(c.Fun) == "fmt.Errorf" {
 				// return fmt.Errorf(...): an error value
 				return "DReturn " + q("error")
 			}
